@@ -95,3 +95,40 @@ def static_inventory():
                 continue
             hits.append(f"{os.path.basename(fn)}:{line}: {text[:100]}")
     return hits
+
+
+def definition_words():
+    """{relative path of a definitions.yaml: {definition name: set of quoted strings}} (line-based harvest; the files are data)."""
+    out = {}
+    root = os.path.join(C.REPO, "Rules")
+    for f in sorted(glob.glob(os.path.join(root, "**", "definitions.yaml"), recursive=True)):
+        cur, defs = None, {}
+        for line in open(f, encoding="utf-8"):
+            m = re.match(r"^\s*-\s*([A-Za-z_]+)\s*:\s*([\[{])?", line)
+            if m and m.group(1) != "include":
+                cur = m.group(1)
+                defs.setdefault(cur, set())
+            if cur:
+                for q in re.findall(r'"((?:[^"\\]|\\.)*)"\s*(?::|,|$|\]|\})', line.split(" #")[0]):
+                    defs[cur].add(q)
+        out[os.path.relpath(f, root)] = defs
+    return out
+
+
+def definition_sensitive_words():
+    """words that some definitions.yaml lists and another one (same definition name, or no file at all) does not: where a table
+    that outlives a language or code switch would show."""
+    dw = definition_words()
+    by_name = {}
+    for f, defs in dw.items():
+        for name, words in defs.items():
+            if not name.startswith("Numbers"):
+                by_name.setdefault(name, {})[f] = words
+    out = set()
+    for name, per_file in by_name.items():
+        union = set().union(*per_file.values())
+        inter = set.intersection(*per_file.values()) if len(per_file) > 1 else set()
+        for w in union - inter:
+            if 1 < len(w) <= 8 and re.fullmatch(r"[^\W\d_]+", w):
+                out.add(w)
+    return sorted(out)
